@@ -158,6 +158,16 @@ structure Envelope where
   frame : Frame
   deriving DecidableEq, Repr
 
+/-- `Router.receiveServerIdentity` (router.go:617-657), the set-up of an accepted connection: the first message
+announces an identity (`announced`: its public key); on a TLS connection the key the handshake authenticated
+(`proven`: the common name of the peer's certificate, property C08) must be the announced key, or the connection
+is refused; a plain connection has nothing to compare the announcement with.  `some i`: the identity every
+envelope of the connection will be stamped with. -/
+def receiveServerIdentity (proven : Option Nat) (announced : Nat) : Option Nat :=
+  match proven with
+  | none => some announced
+  | some k => if k = announced then some announced else none
+
 /-- `Router.handleConn` (router.go:460-512): `Receive` yields an envelope without identity, the loop stamps
 the connection's: `packet.ServerIdentity = remote` -/
 def handleConn (remote : Nat) (f : Frame) : Envelope := { peer := some remote, frame := f }
@@ -373,6 +383,16 @@ def step (s : State) (toks : List String) : State × String :=
         ({ s with st := r.1 }, showDel r.2)
       | none => (s, "bad-op")
     | _, _, _, _ => (s, "bad-op")
+  -- `tls <k> <a> <n>`: a peer that holds the key of server k dials the TLS listener and announces the identity of
+  -- server a (`<a>a<k>`: the key of a with the address of k)
+  | ["tls", k, a, _] =>
+    let a' := match a.splitOn "a" with | [x, _] => x | _ => a
+    match k.toNat?, a'.toNat? with
+    | some k, some a =>
+      match receiveServerIdentity (some k) a with
+      | none => (s, "refused")
+      | some i => (s, s!"stamped:{i}")
+    | _, _ => (s, "bad-op")
   | ["rereg"] => (s, "ok")   -- an equal copy of the tree is registered again: nothing changes
   | _ => (s, "bad-op")
 
